@@ -61,3 +61,33 @@ Proof.
   destruct (witness body call_depth 12 ex_c10_b (AAcc ex_atomic_global true)) as [[pr rr]|] eqn:Er; [|vm_compute in Er; discriminate].
   eapply atomic_example; [exact Ew|exact Er|vm_compute; reflexivity|vm_compute; reflexivity].
 Qed.
+
+(* every public getter (name starting with bidib_get_): for every lock guarding tracked state / board / train tables the getter touches, all its
+   accesses to the data under that lock lie inside ONE hold of the lock, on every path (facts generated per getter and lock
+   from the source; a getter that counts under the lock, releases it and copies under a second hold fails) *)
+Lemma c10_getter_single_hold : forallb (sh_check body call_depth) c10_getter_facts = true.
+Proof. vm_compute. reflexivity. Qed.
+
+Theorem c10_getter_paths fn l ex gs : In (fn, l, ex, gs) c10_getter_facts ->
+  forall args p, run_call body call_depth args fn p -> sh_path l ex gs p.
+Proof. intros Hin. eapply sh_check_sound; [exact c10_getter_single_hold|exact Hin]. Qed.
+
+(* a getter against a read-modify-write command on the trains (the writers for which an exclusive single-hold fact exists):
+   all the getter's reads of the train states precede all the command's accesses or follow them all *)
+Theorem c10_getter_vs_rmw fw l gw fr xr gr :
+  In (fw, l, true, gw) c10_rmw_facts -> In (fr, l, xr, gr) c10_getter_facts ->
+  forall c0 tr c i j bi W ai bj R aj argsw argsr,
+  exec rank guard c0 tr c -> i <> j ->
+  proj i tr = bi ++ W ++ ai -> proj j tr = bj ++ R ++ aj ->
+  run_call body call_depth argsw fw W -> run_call body call_depth argsr fr R ->
+  (forall x y k k' a b, ev_at tr i k x a -> length bi <= k < length bi + length W -> is_gs gw a = true ->
+                        ev_at tr j k' y b -> length bj <= k' < length bj + length R -> is_gs gr b = true -> x < y) \/
+  (forall x y k k' a b, ev_at tr i k x a -> length bi <= k < length bi + length W -> is_gs gw a = true ->
+                        ev_at tr j k' y b -> length bj <= k' < length bj + length R -> is_gs gr b = true -> y < x).
+Proof.
+  intros Hw Hr c0 tr c i j bi W ai bj R aj argsw argsr He Hij Hpi Hpj HW HR.
+  eapply sh_paths_ordered; try eassumption.
+  - eapply sh_check_sound; [exact c10_single_hold|apply in_or_app; left; exact Hw|exact HW].
+  - eapply sh_check_sound; [exact c10_getter_single_hold|exact Hr|exact HR].
+Qed.
+
